@@ -384,8 +384,8 @@ def make_shadow_classes():
             self.ser.restore()
 
         def entries(self):
-            items = list(self.items)
-            ser = list(self.ser.items)
+            items = list(self)  # public iteration only: the harness must survive refactorings
+            ser = list(self.ser)
             if len(items) != len(ser):
                 return None  # mirror lost (stack mutated behind its methods): abstain
             return list(zip(ser, items))
